@@ -64,6 +64,13 @@ var knownWarriors = []string{
 	"jmp 0\ndat 0, 010", // a number with leading zeros as the very last thing in the file
 	"spl 0\nmov 0, 1\ndat 008, 0009",
 	"add #0010, 1\njmp -1, 0001\n",
+	// survival hinges on the VALUE of an operand expression: a backward label difference through
+	// / and % (signed: -1/2 = 0, -1%2 = -1), an EQU spliced textually into a FOR count (1+1*2 = 3)
+	"a dat 0\nb jmp (a-b)/2\nend b\n",
+	"a dat 0\nb jmp (a-b)%2+1\nend b\n",
+	"a dat 0\ndat 0\nb jmp (a-b)/3*2\nend b\n",
+	"n equ 1+1\njmp 4\ni for n*2\ndat 0\nrof\njmp 0\n",
+	"n equ 2-1\njmp 2*n\ni for 2*n\ndat 0\nrof\njmp 0\n",
 }
 
 func genCLI(out *bufio.Writer, rng *rand.Rand, count int) int {
